@@ -16,16 +16,19 @@ from audiolazy import (levinson_durbin, parcor, parcor_stable, ParCorError,
 ID = "C11"
 RULE = ("cases = (reflection vector, last entry non-zero, any rational magnitude incl. +-1 | monic "
         "coefficient list) x construction route for parcor; (r0, reflection vector in (-1,1)) | "
-        "(Q block, order) for parcor(levinson_durbin(r)); (root groups: real r / conjugate pair "
+        "(Q block, order | default order) for parcor(levinson_durbin(r)), reflection vectors optionally with the "
+        "entries that cancel an autocorrelation lag to exactly zero (last lag included, default order); (root groups: real r / conjugate pair "
         "a+-bi with multiplicity, non-zero gain, numerator zeros and gain, construction route) for "
-        "parcor_stable; plus a grid of first-order int/float denominators. oracle = step-up "
+        "parcor_stable; the same with plain float coefficients (dyadic roots and gains, every coefficient an exact "
+        "double, degree up to 16/20); plus a grid of first-order int/float denominators. oracle = step-up "
         "recursion / reference step-down in Fractions, exact Toeplitz solves, pole moduli known "
         "from the construction; non-trivial = order >= 2; distinct = distinct case hash")
 ASSUMPTIONS = [
   "coefficients are Q (exact rationals), so the step-down is exact and |k| == 1 is decidable",
   "denominators have a non-zero leading (z^0) coefficient and their degree equals the number of chosen roots (no root at 0)",
   "numerator zeros that coincide with a chosen pole are dropped (a cancelled pole is not a pole)",
-  "int/float coefficients are used only on the first-order grid, where k = a1/a0 is exactly representable",
+  "int coefficients are used only on the first-order grid, where k = a1/a0 is exactly representable",
+  "float denominators beyond first order: every coefficient is exactly the rational it stands for (dyadic roots/gains), so the poles are the chosen ones; floats are used only when an a-priori rounding bound of the step-down (8 roundings counted per operation) leaves every deciding | |k| - 1 | at least 64 bounds wide, otherwise the same case runs with exact numbers",
   "ParCorError from parcor is required exactly when a yielded coefficient has modulus 1 (the division that follows is by 1-k^2 = 0)",
 ]
 
@@ -236,23 +239,60 @@ _sample = st.one_of(st.fractions(min_value=-3, max_value=3, max_denominator=6),
 def strat_levinson(tier):
   pmax = 6 if tier == "quick" else 8
 
+  def kvec():
+    return st.tuples(st.lists(st.one_of(*(w(_kin, 4) + [st.just(Fraction(0))])), min_size=0, max_size=pmax - 1),
+                     _nz(_kin)).map(lambda t: [Q(k) for k in t[0] + [t[1]]])
+
   def case(kind):
     if kind == "k":
-      ks = st.tuples(st.lists(st.one_of(*(w(_kin, 4) + [st.just(Fraction(0))])), min_size=0, max_size=pmax - 1),
-                     _nz(_kin)).map(lambda t: [Q(k) for k in t[0] + [t[1]]])
       return st.fixed_dictionaries(dict(
-        src=st.just("k"), ks=ks,
+        src=st.just("k"), ks=kvec(),
         r0=st.fractions(min_value=Fraction(1, 8), max_value=6, max_denominator=8).map(Q),
         order=st.sampled_from(["default", "given"])))
+    if kind == "kc":
+      # reflection vectors with autocorrelation lags that vanish exactly: at the marked positions
+      # (the last one, mostly) the coefficient is the one value that cancels the lag - a zero lag
+      # says nothing about the reflection coefficient of that order
+      return kvec().flatmap(lambda ks: st.fixed_dictionaries(dict(
+        src=st.just("k"), ks=st.just(ks),
+        cancel=st.tuples(st.lists(st.sampled_from([False, False, True]), min_size=len(ks) - 1, max_size=len(ks) - 1),
+                         st.sampled_from([True, True, True, False])).map(lambda t: t[0] + [t[1]]),
+        r0=st.fractions(min_value=Fraction(1, 8), max_value=6, max_denominator=8).map(Q),
+        order=st.sampled_from(["default", "default", "default", "given"]))))
     return st.lists(_sample.map(Q), min_size=2, max_size=pmax + 1).flatmap(
       lambda blk: st.fixed_dictionaries(dict(src=st.just("data"), blk=st.just(blk),
-                                             order=st.integers(1, len(blk) - 1))))
-  return st.sampled_from(["k", "k", "k", "data"]).flatmap(case)
+                                             order=st.one_of(st.integers(1, len(blk) - 1),
+                                                             st.integers(1, len(blk) - 1),
+                                                             st.just("default")))))
+  return st.sampled_from(["k", "k", "kc", "kc", "kc", "data", "data"]).flatmap(case)
+
+
+def cancelling_ks(r0, ks, cancel):
+  """ks with the entries marked in ``cancel`` replaced, where possible, by the value in (-1, 1)
+  that makes the autocorrelation lag of that order exactly zero (the last one stays non-zero)."""
+  r = [Fraction(r0)]
+  A = [Fraction(1)]
+  E = Fraction(r0)
+  out = []
+  for m, k in enumerate(ks, 1):
+    k = Fraction(k)
+    if cancel[m - 1]:
+      c = -sum((A[j] * r[m - j] for j in range(1, m)), Fraction(0)) / E
+      if abs(c) < 1 and (c != 0 or m < len(ks)):
+        k = c
+    out.append(k)
+    r.append(-k * E - sum(A[j] * r[m - j] for j in range(1, m)))
+    A = [(A[i] if i < len(A) else 0) + k * (A[m - i] if 0 <= m - i < len(A) else 0)
+         for i in range(m + 1)]
+    E *= 1 - k * k
+  return out
 
 
 def run_levinson(case):
   if case["src"] == "k":
     ks = [fr(k) for k in case["ks"]]
+    if case.get("cancel"):
+      ks = cancelling_ks(case["r0"], ks, case["cancel"])
     r = r_from_reflections(case["r0"], ks)
     p = len(ks)
     rq = [Q(v) for v in r]
@@ -267,7 +307,7 @@ def run_levinson(case):
       filt = levinson_durbin(rq) if case["order"] == "default" else levinson_durbin(rq, p)
   else:
     x = [fr(v) for v in case["blk"]]
-    p = case["order"]
+    p = len(x) - 1 if case["order"] == "default" else case["order"]
     r = [sum((x[i] * x[i + t] for i in range(len(x) - t)), Fraction(0)) for t in range(p + 1)]
     if r[0] == 0:
       raise Reject()
@@ -275,7 +315,14 @@ def run_levinson(case):
     for m in range(1, p + 1):
       y = solve([[r[abs(i - j)] for j in range(m)] for i in range(m)], [-r[i] for i in range(1, m + 1)])
       ks.append(y[-1])          # data autocorrelations are positive definite: never singular
-    filt = levinson_durbin([Q(v) for v in r], p)
+    filt = levinson_durbin([Q(v) for v in r]) if case["order"] == "default" else levinson_durbin([Q(v) for v in r], p)
+  lags = ["order:default" if case["order"] == "default" else "order:given"]
+  if ks and ks[-1] != 0 and r[-1] == 0:
+    lags.append("last lag zero, last k non-zero")
+    if case["order"] == "default":
+      lags.append("last lag zero, default order")
+  if any(v == 0 and k != 0 for v, k in zip(r[1:-1], ks[:-1])):
+    lags.append("zero lag inside, k non-zero")
   while ks and ks[-1] == 0:     # the order is the highest non-zero coefficient
     ks.pop()
   what = "levinson_durbin(%s)" % show(r)
@@ -299,7 +346,7 @@ def run_levinson(case):
                     % (what, show(gf), show(back), show(num_before)))
   if [fr(v) for v in filt.numerator] != num_before or list(filt.denominator) != [1]:
     raise Violation("parcor modified the filter it was given")
-  labels = ["src:" + case["src"], "order %d" % min(len(ks), 9)]
+  labels = ["src:" + case["src"], "order %d" % min(len(ks), 9)] + lags
   if any(k == 0 for k in ks):
     labels.append("zero inside")
   return {"nontrivial": len(ks) >= 2, "labels": labels}
@@ -473,6 +520,181 @@ def describe_roots(groups):
   return "{" + ", ".join(out) + "}"
 
 
+# ------------------------------------------ float denominators of any order
+# Plain float coefficients, every one of them the exact rational it stands for: the roots and the
+# gain are dyadic (or a dyadic times a small integer) and the case keeps floats only when each
+# product coefficient fits a double exactly.  The filter then has exactly the chosen poles.  What
+# is left inexact is the arithmetic of the step-down itself; ``float_verdict`` bounds it.
+_U = Fraction(1, 2 ** 53)
+_SLACK = 8          # every rounding is counted this many times (operation order / extra roundings unknown)
+_MARGIN = 64        # a coefficient decides only if | |k| - 1 | exceeds this many error bounds
+
+
+def _ceil(e, bits=120):
+  n = e * 2 ** bits
+  return Fraction(-((-n.numerator) // n.denominator), 2 ** bits)
+
+
+def float_verdict(A, e0):
+  """Verdict of an |k| < 1 step-down run in double precision on the monic polynomial ``A``
+  (exact Fractions) whose computed coefficients start with absolute error <= e0, when that
+  verdict is certain for every order of the floating point operations; else None.
+
+  Second returned value: the number of step-down steps made before the verdict fell."""
+  A = [Fraction(v) for v in A]
+  e = Fraction(e0)
+  steps = 0
+  for m in range(len(A) - 1, 0, -1):
+    k = A[m]
+    if abs(abs(k) - 1) <= _MARGIN * e:
+      return None, steps
+    if abs(k) > 1:
+      return False, steps
+    steps += 1
+    M = max(abs(v) for v in A)
+    D = 1 - k * k
+    u = _SLACK * _U
+    en = e * (1 + abs(k) + M + e) + 2 * u * (M + e) * (1 + abs(k) + e)   # error of A[i] - k.A[m-i]
+    ed = 2 * abs(k) * e + e * e + 2 * u * (2 + 2 * abs(k) * e + e * e)    # error of 1 - k^2
+    if 2 * ed >= D:
+      return None, steps
+    N = M * (1 + abs(k))
+    e = _ceil((en * D + N * ed) / (D * (D - ed)) + u * (N + en) / (D - ed))
+    A = [(A[i] - k * A[m - i]) / D for i in range(m)]
+  return True, steps
+
+
+_F_IN_R = [Fraction(n, d) for n, d in [(1, 2), (-1, 2), (1, 4), (-1, 4), (3, 4), (-3, 4), (1, 8), (-1, 8),
+                                       (3, 8), (-3, 8), (5, 8), (-5, 8), (7, 8), (-7, 8)]]
+_F_OUT_R = [Fraction(n, d) for n, d in [(5, 4), (-5, 4), (3, 2), (-3, 2), (2, 1), (-2, 1), (4, 1), (9, 8), (-9, 8),
+                                        (-3, 1), (7, 4)]]
+_F_IN_C = [Fraction(a, 4) for a in (-3, -2, -1, 0, 1, 2, 3)]
+_F_GAIN = [Fraction(n, d) for n, d in [(2, 1), (-2, 1), (3, 1), (-3, 1), (4, 1), (-6, 1), (5, 2), (-5, 2), (10, 1),
+                                       (1, 2), (-1, 2), (1, 4), (-1, 4), (3, 4), (1, 8), (-3, 8), (1, 16),
+                                       (7, 1), (3, 2), (1, 1), (-1, 1)]]
+_FROUTES = ["list", "recip", "cascade"]
+
+
+def _fgroup(where):
+  quarter = st.sampled_from(_F_IN_C)
+  if where == "in":
+    real = st.sampled_from(_F_IN_R)
+    pair = st.tuples(quarter, quarter).filter(lambda ab: ab[1] != 0 and ab[0] ** 2 + ab[1] ** 2 < 1)
+  elif where == "on":
+    real = _unit
+    pair = st.sampled_from([(Fraction(0), Fraction(1)), (Fraction(0), Fraction(-1))])
+  else:
+    real = st.sampled_from(_F_OUT_R)
+    pair = st.tuples(st.sampled_from([Fraction(a, 4) for a in range(-6, 7)]),
+                     st.sampled_from([Fraction(a, 4) for a in range(-6, 7) if a])).filter(
+      lambda ab: ab[0] ** 2 + ab[1] ** 2 > 1)
+  mult = st.sampled_from([1, 1, 1, 1, 2])
+  return st.one_of(
+    st.tuples(st.just("r"), real.map(Q), mult),
+    st.tuples(st.just("c"), pair, mult).map(lambda t: ("c", Q(t[1][0]), Q(t[1][1]), t[2])))
+
+
+def _degree(groups):
+  return sum((1 if g[0] == "r" else 2) * g[-1] for g in groups)
+
+
+def strat_stable_float(tier):
+  dmax = 16 if tier == "quick" else 20
+
+  def trim(groups):
+    groups = list(groups)
+    while _degree(groups) > dmax:
+      groups.pop(0)
+    return groups
+
+  def roots(regime, size):
+    lo, hi = {"low": (1, 5), "high": (6, 12)}[size]
+    ins = st.lists(_fgroup("in"), min_size=lo, max_size=hi)
+    if regime == "inside":
+      return ins.map(trim)
+    bad = _fgroup("on" if regime == "on" else "out")
+    return st.tuples(ins, bad, st.integers(0, 12)).map(
+      lambda t: trim(t[0][:t[2] % (len(t[0]) + 1)] + [t[1]] + t[0][t[2] % (len(t[0]) + 1):]))
+
+  def case(rs):
+    return st.fixed_dictionaries(dict(
+      roots=roots(*rs),
+      gain=st.sampled_from(_F_GAIN).map(Q),
+      num=st.sampled_from([[1], [1], [Fraction(1, 2), Fraction(-1, 4)], [3, 0, 1]]).map(lambda v: [Q(c) for c in v]),
+      route=st.sampled_from(_FROUTES)))
+  return st.tuples(st.sampled_from(["inside"] * 6 + ["outside"] * 6 + ["on"]),
+                   st.sampled_from(["high", "high", "high", "low"])).flatmap(case)
+
+
+def run_stable_float(case):
+  g = fr(case["gain"])
+  factors = []
+  inside = []
+  for grp in case["roots"]:
+    if grp[0] == "r":
+      r, mult = fr(grp[1]), grp[2]
+      fac, mod2 = [Fraction(1), -r], r * r
+    else:
+      a, b, mult = fr(grp[1]), fr(grp[2]), grp[3]
+      fac, mod2 = [Fraction(1), -2 * a, a * a + b * b], a * a + b * b
+    factors.extend([fac] * mult)
+    inside.append(mod2 < 1)
+  monic = [Fraction(1)]
+  for fac in factors:
+    monic = polymul(monic, fac)
+  den = [g * c for c in monic]
+  deg = len(den) - 1
+  expect = all(inside)
+  labels = []
+  # floats only when every coefficient is the double it is written as
+  exact = all(Fraction(float(c)) == c for c in den + monic)
+  certain = None
+  if exact:
+    pow2 = g.numerator in (1, -1) and g.denominator & (g.denominator - 1) == 0 or \
+           g.denominator == 1 and abs(g.numerator) & (abs(g.numerator) - 1) == 0
+    e0 = Fraction(0) if pow2 else 4 * _U * max(abs(c) for c in monic)
+    certain, steps = float_verdict(monic, e0)
+    if certain is not None and certain != expect:
+      raise AssertionError("step-down criterion contradicts the chosen roots")   # oracle self-check
+  if certain is None:
+    T = Q
+    labels.append("exact numbers (float verdict not certain)" if exact else "exact numbers (not all doubles)")
+  else:
+    T = float
+    labels.append("float coefficients")
+    if g != 1:
+      labels.append("float, non-unit gain")
+      if deg >= 11:
+        labels.append("float, non-unit gain, degree >= 11")
+        if abs(g) > 1 and not expect and steps >= 10:
+          labels.append("float, |gain| > 1, degree >= 11, decided after 10 steps or more")
+        if abs(g) < 1 and expect and deg >= 12:
+          labels.append("float, |gain| < 1, degree >= 12, stable")
+  qd = [T(c) for c in den]
+  qn = [T(fr(c)) for c in case["num"]]
+  route = case["route"]
+  if route == "list":
+    filt = ZFilter(qn, qd)
+  elif route == "recip":
+    filt = ZFilter(qn) / ZFilter(qd)
+  elif route == "cascade":   # gain section times monic section: each product g * c is exact (checked above)
+    filt = CascadeFilter([ZFilter(qn, [T(g)]), ZFilter([T(1)], [T(c) for c in monic])])
+  else:
+    raise AssertionError(route)
+  got = parcor_stable(filt)
+  if got is not True and got is not False:
+    raise Violation("parcor_stable returned %r, not a bool" % (got,))
+  if got != expect:
+    raise Violation("parcor_stable says %s for the %s denominator %s (leading coefficient %s, degree %d); roots %s => %s"
+                    % (got, "float" if T is float else "exact", show(den), g, deg, describe_roots(case["roots"]),
+                       "all strictly inside the unit circle" if expect else "not all inside the unit circle"))
+  labels.append("expect stable" if expect else "expect not stable")
+  labels.append("route:" + route)
+  if deg >= 11:
+    labels.append("degree >= 11")
+  return {"nontrivial": deg >= 2, "labels": labels + ["degree %d" % deg]}
+
+
 # ---------------------------------------- first-order int / float denominators
 # (49, 98, 103, 107: plain numbers g with g * (1 / g) != 1 in double precision - the leading
 #  coefficient is divided out, not multiplied by a reciprocal)
@@ -519,7 +741,8 @@ CLAUSES = [
          doc="parcor inverts the step-up recursion exactly; ParCorError exactly on |k| = 1; "
              "step-up of the yielded coefficients rebuilds the filter"),
   Clause("levinson", strat_levinson, run_levinson, quick=800, thorough=10000,
-         floors={"src:k": .2, "src:data": .08},
+         floors={"src:k": .2, "src:data": .08, "last lag zero, default order": .03,
+                 "zero lag inside, k non-zero": .01, "order:default": .2, "order:given": .12},
          doc="parcor(levinson_durbin(r)) reversed == reflection coefficients, "
              "error == r0*prod(1-k^2), step-up rebuilds the filter"),
   Clause("stable", strat_stable, run_stable, quick=2000, thorough=24000,
@@ -528,6 +751,14 @@ CLAUSES = [
                  "gain other than +-1": .1, "numerator zeros": .12},
          shards={"quick": 16, "thorough": 32},
          doc="parcor_stable == every chosen root strictly inside the unit circle, for every gain"),
+  Clause("stable_float", strat_stable_float, run_stable_float, quick=600, thorough=8000,
+         floors={"float coefficients": .2, "float, non-unit gain, degree >= 11": .1,
+                 "float, |gain| < 1, degree >= 12, stable": .015,
+                 "float, |gain| > 1, degree >= 11, decided after 10 steps or more": .004,
+                 "expect stable": .15, "expect not stable": .12},
+         shards={"quick": 16, "thorough": 32},
+         doc="parcor_stable on plain float denominators (each coefficient an exact double) of degree up to 16/20, "
+             "any dyadic gain: == every chosen root strictly inside the unit circle"),
   Enumerated("first_order", grid_first_order, run_first_order, shards={"quick": 2, "thorough": 2},
              doc="int / float first-order denominators g - g.r z^-1 over a grid of gains and poles"),
 ]
